@@ -189,9 +189,17 @@ class Check:
         results = run_impl_cases(self.modname, cases)
         infra = [r for r in results if "infra_error" in r]
         if infra:
-            print("BROKEN-INFRASTRUCTURE: harness error on %d cases; first:\n%s" % (len(infra), infra[0]["infra_error"]))
-            self.finish(proof, {}, [], broken + [{"obligation": "harness", "detail": infra[0]["infra_error"]}], fatal=True)
-            return 2
+            # the harness could not evaluate these cases (typically: the implementation returned something of
+            # an unexpected shape).  On the unchanged tree this never happens; when it does, the
+            # correspondence is no longer established for those inputs: reported as a broken obligation
+            # (VIOLATION ... no-failing-input-found unless an oracle failure is found elsewhere), and
+            # the remaining cases are still evaluated.
+            print("HARNESS-ERROR on %d cases; first:\n%s" % (len(infra), infra[0]["infra_error"][-1500:]))
+            bad_idx = [k for k, r in enumerate(results) if "infra_error" in r]
+            broken.append({"obligation": "correspondence harness could not evaluate %d case(s)" % len(infra),
+                           "detail": infra[0]["infra_error"][-1500:], "first_case": cases[bad_idx[0]]})
+            results = [r if "infra_error" not in r else {"model": [], "oracle": [], "tags": ["harness-error"], "nontrivial": False}
+                       for r in results]
 
         # 3. model side
         mcases, owner = [], []
